@@ -71,6 +71,7 @@ class Gen(object):
         self.versions = versions
         self.max_total = max_total
         self.name_seq = 0
+        self.focus_p = None     # restrict provider choices (conc batches)
 
     # -- helpers -------------------------------------------------------------
     def pick(self, seq):
@@ -95,6 +96,8 @@ class Gen(object):
         return g
 
     def existing_p(self, m):
+        if self.focus_p is not None:
+            return [u for u in self.focus_p if u in m.providers]
         return [u for u in self.P if u in m.providers]
 
     def missing_p(self, m):
@@ -310,7 +313,7 @@ class Gen(object):
                 'v': self.ver(), 'b': b, 'defect': d}
 
     def g_inv_put_one(self, m):
-        have = [k for k in m.inventories if k[0] in self.P]
+        have = sorted(k for k in m.inventories if k[0] in self.existing_p(m))
         if not have:
             return None
         u, rc = self.pick(have)
@@ -334,7 +337,7 @@ class Gen(object):
                 (u, rc), 'v': self.ver(), 'b': b, 'defect': d}
 
     def g_inv_delete_one(self, m):
-        have = [k for k in m.inventories if k[0] in self.P]
+        have = sorted(k for k in m.inventories if k[0] in self.existing_p(m))
         if not have:
             return None
         u, rc = self.pick(have)
@@ -470,6 +473,11 @@ class Gen(object):
                      max_rp=2):
         invs = m.inventories if inventories is None else inventories
         pairs = [k for k in invs if k[0] in m.providers]
+        if self.focus_p is not None:
+            fp = [k for k in pairs if k[0] in self.focus_p]
+            if fp:
+                pairs = fp
+        pairs.sort()
         self.rng.shuffle(pairs)
         out = {}
         extra = dict(extra or {})
